@@ -29,6 +29,7 @@ Inductive case :=
 | CDecimal (d : decimal) (dbl : option dyadic) (text : option decimal) (ser_float file_equal argv_equal : bool)
 | CBuiltin (kind : N) (ser : str) (all_equal : bool)
 | CStr (p : pat) (v : pyval) (acc : option str) (extras_ok : bool)
+| CStrHist (first second : pat) (flags1 flags2 : str) (same_name : bool) (v : pyval) (created : bool) (acc : option str)
 | CCrash (kind : N).    (* an exception outside the documented channel escaped, or the harness failed *)
 
 Definition prange_same (a b : prange) : bool :=
@@ -119,6 +120,22 @@ Definition judge1 (c : case) : verdict :=
          v_class := 0;
          v_spec := option_eqb str_eqb (match v with PStr s => if re_match p s then Some s else None | _ => None end) acc
                    && extras_ok |}
+  | CStrHist first second flags1 flags2 same_name v created acc =>
+      (* two creations with the same pattern text: name "A" with flags1 (compiled: `first`), then name "A"
+         (same_name) or "B" with flags2 (compiled: `second`); observed: did the second call return a type, and
+         what that type made of v. Whether the flags are part of the key comes from the source. *)
+      let text := [120%N] in
+      let nameA := [65%N] in
+      let compile := fun (_ fl : str) => if str_eqb fl flags1 then first else second in
+      let kf := string_key_has_flags in
+      let reg1 := snd (create_str compile kf [] nameA text flags1) in
+      let r := fst (create_str compile kf reg1 (if same_name then nameA else [66%N]) text flags2) in
+      {| v_model := match r with
+                    | Some t => created && option_eqb str_eqb (construct_str t v) acc
+                    | None => negb created
+                    end;
+         v_class := if str_key_guard compile kf reg1 text flags2 then 0 else if same_name then 2 else 0;
+         v_spec := negb created || option_eqb str_eqb (construct_str (compile text flags2) v) acc |}
   | CCrash _ => {| v_model := false; v_class := 0; v_spec := false |}
   end.
 
